@@ -15,7 +15,8 @@ OPAQUE = ["FirstValid", "Amount", "Fee", "LastValid"]
 CMP = ["<", "<=", ">", ">=", "==", "!="]
 
 EXCLUDED_COUNT = {"n": 0}
-NAME_POOL = ["f", "ff", "xf", "g", "fg", "xfg", "even", "is_even", "check_is_even", "n__", "sub", "retsub_", "b_"]
+NAME_POOL = ["f", "ff", "fff", "xf", "g", "fg", "n__"]  # nearly every pair: one name is a suffix of the other (n__ of __main__)
+NAME_POOL_2 = ["even", "is_even", "check_is_even", "sub", "retsub_", "b_", "callsub1", "ret", "main_"]
 
 
 @st.composite
@@ -43,7 +44,7 @@ def filler(draw) -> List[list]:
 
 
 @st.composite
-def layout_program(draw, structured: bool = True, max_slots: int = 10, max_subs: int = 3, min_version: int = 2):
+def layout_program(draw, structured: bool = True, max_slots: int = 10, max_subs: int = 3, min_version: int = 2, reuse_targets: bool = False):
     version = draw(st.sampled_from([8, 8, 8, 8, 7, 6, 5, 4, 4, 3, 2]))
     version = max(version, min_version)
     can_call = version >= 4
@@ -55,7 +56,8 @@ def layout_program(draw, structured: bool = True, max_slots: int = 10, max_subs:
     sub_names = [f"sub{k}" for k in range(nsubs)]
     if nsubs and draw(st.booleans()):
         # hand-written names, several of them prefixes / suffixes / substrings of one another
-        sub_names = draw(st.lists(st.sampled_from(NAME_POOL), min_size=nsubs, max_size=nsubs, unique=True))
+        pool = NAME_POOL if draw(st.booleans()) else NAME_POOL + NAME_POOL_2
+        sub_names = draw(st.lists(st.sampled_from(pool), min_size=nsubs, max_size=nsubs, unique=True))
 
     # regions: list of (name, nslots)
     regions = [("main", draw(st.integers(1, max_slots)))]
@@ -101,9 +103,19 @@ def layout_program(draw, structured: bool = True, max_slots: int = 10, max_subs:
             cands = [p[0] for p in pool]
         if not cands:
             return None
-        return [draw(st.sampled_from(cands)) for _ in range(n)]
+        got = []
+        for _ in range(n):
+            again = [l for l in used_targets if l in cands]
+            if reuse_targets and again and draw(st.booleans()):
+                # several branches of a region go to one and the same block (a shared reject / exit block)
+                got.append(draw(st.sampled_from(again)))
+            else:
+                got.append(draw(st.sampled_from(cands)))
+        used_targets.extend(got)
+        return got
 
     order_pos = {r: k for k, (r, _) in enumerate(regions)}
+    used_targets: List[str] = []
     items: List[list] = []
     if subs_first:
         # jump over the subroutine bodies into main
@@ -124,8 +136,10 @@ def layout_program(draw, structured: bool = True, max_slots: int = 10, max_subs:
                 kinds += ["callsub"] * 3
             if can_call and (rname != "main" or not structured):
                 kinds += ["retsub"] * 2
+            if reuse_targets and can_back and structured:
+                kinds += ["skiprej"] * 3
             kind = draw(st.sampled_from(kinds))
-            if structured and last_slot and not last_region and kind in ("fall", "bz", "bnz", "switch", "match", "callsub"):
+            if structured and last_slot and not last_region and kind in ("fall", "bz", "bnz", "switch", "match", "callsub", "skiprej"):
                 # a region never falls through into the next one
                 kind = draw(st.sampled_from(["return", "err", "b"] + (["retsub"] * 3 if rname != "main" else [])))
             if structured and last_slot and last_region and kind == "fall" and draw(st.booleans()):
@@ -161,6 +175,14 @@ def layout_program(draw, structured: bool = True, max_slots: int = 10, max_subs:
             elif kind == "return":
                 r = draw(st.integers(0, 5))
                 body = (draw(cond_body()) if r == 0 else [I("int", 0 if r == 1 else 1)]) + [I("return")]
+            elif kind == "skiprej":
+                # hand-written dispatcher idiom: `c; bnz next; reject: err; next:` - the shared reject block sits
+                # in the fall-through and later code jumps back to it
+                rej, nxt = f"{rname}_rej{i}", f"{rname}_nx{i}"
+                body = draw(cond_body()) + [I("bnz", nxt), L(rej), I("err"), L(nxt)]
+                region_labels[rname].append((rej, i))
+                all_labels.append((rej, rname, i))
+                used_targets.extend([rej, rej])
             elif kind == "err":
                 body = [I("err")]
             items.extend(body)
